@@ -445,8 +445,10 @@ impl VersionSet {
 
         // Drop the manifest reader (and therefore the underlying file handle) before attempting to
         // reuse the existing manifest file
+        // A manifest that ends in a torn write is not appended to. A new manifest is written instead.
+        let is_manifest_reusable = !manifest_reader.has_partial_tail();
         drop(manifest_reader);
-        if self.maybe_reuse_manifest(&manifest_file_path) {
+        if is_manifest_reusable && self.maybe_reuse_manifest(&manifest_file_path) {
             return Ok(true);
         }
 
